@@ -84,6 +84,22 @@ let bad_res_header (r : respmsg) (c : wire_res) : string =
         else go rest in
   go (r.shdrs @ c.c_hdrs)
 
+let judge_res es o sv p =
+  match first_bad res_preserved_b (List.map resp_of sv) o.client_got 0 with
+  | Some (i, Some (r, c)) ->
+      let what =
+        if not c.c_complete then "client-cannot-frame-response(" ^ p.fin ^ ")"
+        else if c.c_status <> r.status then "status got=" ^ dec_of_n c.c_status
+        else if not (body_eqb c.c_body r.sbody) then
+          Printf.sprintf "body want-len=%s got-len=%s" (dec_of_n r.sbody.blen) (dec_of_n c.c_body.blen)
+        else "headers " ^ bad_res_header r c in
+      VPropfail ("response_preserved", Printf.sprintf "exchange=%d %s" i what)
+  | Some (i, None) ->
+      VPropfail ("one_response_per_request",
+                 Printf.sprintf "client-got=%d want=%d end=%s" (List.length o.client_got) (List.length sv) p.fin)
+  | None -> VPropfail ("one_request_per_exchange",
+                       Printf.sprintf "origin-saw=%d want=%d" (List.length o.origin_saw) (List.length sv))
+
 let judge _name ins outs =
   match ins with
   | "H1" :: _mode :: xtoks ->
@@ -106,26 +122,12 @@ let judge _name ins outs =
                    Printf.sprintf "body want-len=%s got-len=%s" (dec_of_n r.rbody.blen) (dec_of_n w.w_body.blen)
                  else "headers " ^ bad_req_header r w in
                VPropfail ("request_preserved", Printf.sprintf "exchange=%d %s" i what)
-           | Some (i, None) ->
+           | Some (i, None) when c01_res_ok es o || List.length o.client_got > List.length o.origin_saw ->
                VPropfail ("one_request_per_exchange",
                           Printf.sprintf "origin-saw=%d want=%d (first-mismatch=%d)" (List.length o.origin_saw) (List.length sv) i)
-           | None -> VDisagree "oracle-inconsistent"
+           | _ -> judge_res es o sv p
          end
-         else if not (c01_res_ok es o) then begin
-           match first_bad res_preserved_b (List.map resp_of sv) o.client_got 0 with
-           | Some (i, Some (r, c)) ->
-               let what =
-                 if not c.c_complete then "client-cannot-frame-response(" ^ p.fin ^ ")"
-                 else if c.c_status <> r.status then "status got=" ^ dec_of_n c.c_status
-                 else if not (body_eqb c.c_body r.sbody) then
-                   Printf.sprintf "body want-len=%s got-len=%s" (dec_of_n r.sbody.blen) (dec_of_n c.c_body.blen)
-                 else "headers " ^ bad_res_header r c in
-               VPropfail ("response_preserved", Printf.sprintf "exchange=%d %s" i what)
-           | Some (i, None) ->
-               VPropfail ("one_response_per_request",
-                          Printf.sprintf "client-got=%d want=%d end=%s" (List.length o.client_got) (List.length sv) p.fin)
-           | None -> VDisagree "oracle-inconsistent"
-         end
+         else if not (c01_res_ok es o) then judge_res es o sv p
          else if not (c01_close_ok es o) then
            VPropfail ("keepalive", Printf.sprintf "after-response=%d connection=%s want-closed=%b"
                         (List.length o.client_got) p.fin (List.exists wants_close es))
